@@ -189,6 +189,8 @@ func generate(r *hxlib.Run, emit func(hxlib.Case)) {
 	g.bridgeDB()
 	g.tcp()
 	g.expiredKeyStorm()
+	g.rawTCP()
+	g.bridgeScope()
 	for i := 0; i < r.Budget(5000, 80000); i++ {
 		g.history()
 	}
@@ -359,7 +361,7 @@ func (g *gen) tableCookies() {
 				ck := sessCookie(0)
 				switch variant {
 				case 1:
-					lines = append(lines, "adv 295")
+					lines = append(lines, "adv 280")
 				case 2:
 					lines = append(lines, "adv 305")
 				case 3:
@@ -585,6 +587,45 @@ func (g *gen) keyConfigs() {
 	}
 }
 
+// bridgeScope: keys that try to leave /api/v1/ through the database bridge (implementation only).
+func (g *gen) bridgeScope() {
+	keys := []string{"c12/e/3/3", "c12/e/4/4", "../c12/a/3/3/1", "../../c12/a/3/3/1", "c12/e/1/1/../../../../../c12/a/3/3/1", "/../c12/a/3/3/1", "..", "../", ".",
+		"../api/v1/c12/e/3/3", "c12/../c12/e/3/3", "./c12/e/1/1", "..%2f..%2fc12/a/3/3/1", "%2e%2e/%2e%2e/c12/a/3/3/1", "c12/e/3/3/../../../../c12/p/1", "../../c12/p/1",
+		"..\\..\\c12\\a\\3\\3\\1", "c12/e/3/3?x=/../../", "../v1/../../c12/a/1/1/1", "../v1x/c12/a/1/1/1", "//c12/a/3/3/1", "../../c12/m/2/3"}
+	lines := []string{"authset 1"}
+	for _, k := range keys {
+		lines = append(lines, "bridgeraw "+hx(k))
+	}
+	g.emit(hxlib.Case{Lines: lines, NonTrivial: true, Kind: "bridge-scope", NoModel: true})
+}
+
+// rawTCP: malformed HTTP on the wire (implementation only); the server must keep answering afterwards.
+func (g *gen) rawTCP() {
+	junk := []string{"", "\r\n\r\n", "GET", "GET / HTTP/1.1\r\n", "GET /c12/a/2/2/1 HTTP/1.1\r\nHost: c12.test\r\nAuthorization: Bearer \x00\x01\r\n\r\n",
+		"GET /c12/a/2/2/1 HTTP/1.1\r\nHost: c12.test\r\nAuthorization: Bearer abc\r\n\r\n", "GET /c12/a/2/2/1 HTTP/1.1\r\nHost: c12.test\r\nAuthorization: Basic !!!\r\nAuthorization: Bearer x\r\n\r\n",
+		"GET /c12/a/2/2/1 HTTP/1.0\r\nOrigin: null\r\n\r\n", "GET /c12/a/2/2/1 HTTP/1.1\r\nHost: c12.test\r\nCookie: " + cookieName + "=\"\r\n\r\n",
+		"GET /c12/a/2/2/1 HTTP/1.1\r\nHost: c12.test\r\nOrigin: http://c12.test\r\nOrigin: http://evil.example\r\n\r\n", "OPTIONS * HTTP/1.1\r\nHost: c12.test\r\n\r\n",
+		"GET http://evil.example/c12/a/1/1/1 HTTP/1.1\r\nHost: c12.test\r\n\r\n", "G\x00T / HTTP/1.1\r\nHost: x\r\n\r\n", "GET /%zz HTTP/1.1\r\nHost: c12.test\r\n\r\n",
+		"GET /c12/a/2/2/1 HTTP/1.1\r\nHost: c12.test\r\nAuthorization: Bearer " + strings.Repeat("A", 2000000) + "\r\n\r\n", "POST /c12/a/1/1/1 HTTP/1.1\r\nHost: c12.test\r\nContent-Length: 10\r\n\r\nabc",
+		"GET /c12/a/2/2/1 HTTP/1.1\r\nHost: c12.test\r\nAuthorization:Bearer\r\n\r\n", "GET /c12//a/2/2/1/../1 HTTP/1.1\r\nHost: c12.test\r\n\r\n", "CONNECT c12.test:80 HTTP/1.1\r\nHost: c12.test\r\n\r\n"}
+	for i := 0; i < g.r.Budget(6, 60); i++ {
+		lines := []string{"authset 1"}
+		t, v := dynRoute(2, 2)
+		for k := 0; k < 8; k++ {
+			j := g.pick(junk)
+			if g.rng.Intn(3) == 0 {
+				b := []byte(j)
+				for m := 0; m < 1+g.rng.Intn(4) && len(b) > 0; m++ {
+					b[g.rng.Intn(len(b))] = byte(g.rng.Intn(256))
+				}
+				j = string(b)
+			}
+			lines = append(lines, "raw "+hx(j), g.req(reqSpec{via: "tcp", method: "GET", target: t, rview: v, au: "T:2:2"}))
+		}
+		g.emit(hxlib.Case{Lines: lines, NonTrivial: true, Kind: "raw-tcp", NoModel: true})
+	}
+}
+
 // expiredKeyStorm: configurations containing an already expired key, back to back. Each of them makes
 // updateAPIKeys start the "api key cleanup" microtask, which writes the option concurrently with the
 // caller of the first config change (a lock-order deadlock between two config.SaveConfig calls wedged
@@ -689,9 +730,11 @@ func (g *gen) history() {
 	var keys []kc
 	sessions := 0 // upper bound of sessions created so far
 	authset := false
+	// real time only ever makes things older than the logical clock says: keep 20 s before every
+	// expiry instant and 4 s after it (second granularity of rendered key expiries)
 	avoid := func(t int64) bool {
 		for _, b := range bounds {
-			if t-b < 6 && b-t < 6 {
+			if (b >= t && b-t < 20) || (t > b && t-b < 4) {
 				return true
 			}
 		}
@@ -723,7 +766,7 @@ func (g *gen) history() {
 					if exp < 0 {
 						exp = 0
 					}
-					for exp-now < 6 && now-exp < 6 {
+					for (exp >= now && exp-now < 20) || (now > exp && now-exp < 4) {
 						exp += 7
 					}
 					bounds = append(bounds, exp)
@@ -738,7 +781,7 @@ func (g *gen) history() {
 		case x < 28:
 			lines = append(lines, "cfgchange")
 		case x < 40:
-			adv(g.pick64([]int64{1, 10, 60, 150, 290, 299, 300, 301, 310, 600, 5000}))
+			adv(g.pick64([]int64{1, 10, 60, 150, 270, 280, 300, 304, 310, 600, 5000}))
 		case x < 44:
 			lines = append(lines, "clean")
 		case x < 48:
